@@ -45,14 +45,22 @@ SCHEMA_YAML = """schema:
 engine:
   processors:
     - speller
+    - punctuator
     - selector
     - navigator
     - express_editor
   segmentors:
     - abc_segmentor
+    - punct_segmentor
     - fallback_segmentor
   translators:
+    - punct_translator
     - script_translator
+punctuator:
+  half_shape:
+    '/': ['、', '/', '÷']
+  full_shape:
+    '/': ['、', '/', '÷']
 speller:
   alphabet: 'abcdefghijklmnopqrstuvwxyz'
   delimiter: " '"
@@ -131,6 +139,12 @@ def gen_history(rng, n_calls, reopen_bias=0.06):
         r = rng.random()
         if r < 0.50:      # type and commit
             word = "".join(rng.choice(SYLLABLES) for _ in range(rng.choice([1, 1, 2, 2, 3])))
+            if rng.random() < 0.3:
+                # a punctuation with several candidates stays in the composition: the commit then memorises the phrase before
+                # it and the phrase after it as two entries of ONE commit
+                word += "/" + "".join(rng.choice(SYLLABLES) for _ in range(rng.choice([1, 2])))
+                if rng.random() < 0.2:
+                    word += "/" + rng.choice(SYLLABLES)
             keys(word)
             if rng.random() < 0.75:
                 L.append("key %d 0" % XK_SPACE)
